@@ -327,4 +327,193 @@ theorem loop_nodes (ctx : ImplContext) (hk : ctx.kind.cls = .into)
         simp only [hdeepB, ↓reduceIte, hk, hcpa, hkey, hfind, hnr, bind, Except.bind, pure, Except.pure, newDepthOf] at hkey ihkids ⊢
         sub_tail (d + 1)
 
+mutual
+/-- IntoExisting: a nested struct contributes the assignments of its own nodes, then its ghost assignments (and the
+    `..update` tokens the code appends at every level) — no wrapper -/
+def Node.subSpecE (ctx : ImplContext) (nr : Bool) (lvl : FieldCtx) (kids : NodeList) (cdata : ChildParentData) : E TS := do
+  match subLevel ctx lvl kids cdata with
+  | some (cp, crc, d) =>
+    let lines ← NodeList.specE ctx nr (some (cp, crc, d)) cdata.typeHint kids 0
+    let g ← structGhostLines ctx (some (cp, crc, d))
+    wrapInit ctx cdata.typeHint nr (lines ++ g ++ updateToks ctx)
+  | none => .error (.unsupported "ill-formed tree")
+def NodeList.specE (ctx : ImplContext) (nr : Bool) (lvl : FieldCtx) (hint : TypeHint) : NodeList → Nat → E TS
+  | .nil, _ => .ok []
+  | .cons (.leaf _ f) ns, idx =>
+    if fieldSkipped ctx f then NodeList.specE ctx nr lvl hint ns idx
+    else do
+      let l ← renderStructLine f ctx hint idx none
+      let r ← NodeList.specE ctx nr lvl hint ns (idx + 1)
+      return l ++ r
+  | .cons (.sub kids cdata) ns, idx => do
+    let frag ← Node.subSpecE ctx nr lvl kids cdata
+    let r ← NodeList.specE ctx nr lvl hint ns (idx + 1)
+    return frag ++ r
+end
+
+theorem cls_existing_not_from {k : Kind} (h : k.cls = .existing) : k.isFrom = false := by
+  unfold Kind.cls at h
+  cases hf : k.isFrom
+  · rfl
+  · simp [hf] at h
+
+set_option hygiene false in
+macro "sub_tail_e" nd:term : tactic => `(tactic| (
+  unfold renderExistingChild
+  simp only [bind, Except.bind, pure, Except.pure, hkey, hcpa, hfind, Option.bind, Option.map]
+  rw [Node.subSpecE, subLevel_eq ctx _ kids cdata p0 ca0 hfirst hca0]
+  simp only [bind, Except.bind, pure, Except.pure, newDepthOf]
+  unfold structInitBlockInner
+  simp only [bind, Except.bind, pure, Except.pure]
+  rw [ihkids]
+  cases hl : NodeList.specE ctx nr (some (ca0.childPath, some { ty := cdata.ty, typeHint := cdata.typeHint }, $nd)) cdata.typeHint kids 0 with
+  | error e => rfl
+  | ok lines =>
+    simp only [List.nil_append]
+    cases hg : structGhostLines ctx (some (ca0.childPath, some { ty := cdata.ty, typeHint := cdata.typeHint }, $nd)) with
+    | error e => rfl
+    | ok g =>
+      simp only
+      cases hw : wrapInit ctx cdata.typeHint nr (lines ++ g ++ updateToks ctx) with
+      | error e => rfl
+      | ok init =>
+        simp only
+        rw [ihns _ (idx + 1) hn hwf' hend]
+        cases NodeList.specE ctx _ _ _ ns (idx + 1) <;> simp [List.append_assoc]))
+
+/-- **C03, any depth, IntoExisting**: over a well-formed tree the loop emits exactly one assignment per contributing
+    member, in list order, each nested struct's ghost assignments right after its own members -/
+theorem loop_nodes_existing (ctx : ImplContext) (hk : ctx.kind.cls = .existing)
+    (cpa : ChildParentsAttr) (hcpa : ctx.input.attrs.childParentsAttr ctx.ty = some cpa)
+    (nr : Bool) (hnr : ctx.input.namedFields = .ok nr) :
+    ∀ (ns : NodeList) (named : Bool) (lvl : FieldCtx) (hint : TypeHint) (rest : List FieldContainer) (fuel : Nat) (frags : TS) (idx : Nat),
+      ns.weight + 1 < fuel → NodeList.WF ctx cpa lvl rest.head? ns → endOk lvl rest →
+      structInitLoop fuel (ns.flatten ++ rest) named ctx lvl hint frags idx =
+        (match NodeList.specE ctx nr lvl hint ns idx with
+         | .ok ts => .ok (frags ++ ts, rest)
+         | .error e => .error e)
+  | .nil, named, lvl, hint, rest, fuel, frags, idx, hf, _, hend => by
+    cases fuel with
+    | zero => simp at hf
+    | succ n =>
+      simp only [NodeList.flatten, List.nil_append, NodeList.specE, List.append_nil]
+      cases lvl with
+      | none =>
+        simp only [endOk] at hend
+        subst hend
+        simp [structInitLoop]
+      | some l =>
+        obtain ⟨cp, crc, d⟩ := l
+        obtain ⟨pfx, hpfx, hr⟩ := hend
+        cases hr with
+        | inl h => subst h; simp [structInitLoop]
+        | inr h =>
+          obtain ⟨fc, rs, hr, hm⟩ := h
+          subst hr
+          unfold structInitLoop
+          simp [hpfx, hm, bind, Except.bind, pure, Except.pure]
+  | .cons (.leaf fc f) ns, named, lvl, hint, rest, fuel, frags, idx, hf, hwf, hend => by
+    cases fuel with
+    | zero => simp at hf
+    | succ n =>
+      obtain ⟨hhead, hleaf, hwf'⟩ := hwf
+      obtain ⟨hfd, hlvl⟩ := hleaf
+      have hn : ns.weight + 1 < n := by simp [NodeList.weight, Node.weight] at hf; omega
+      have ih := loop_nodes_existing ctx hk cpa hcpa nr hnr ns named lvl hint rest n
+      simp only [NodeList.flatten, Node.flatten, List.singleton_append, List.cons_append, List.nil_append, NodeList.specE]
+      cases lvl with
+      | none =>
+        simp only at hlvl
+        conv => lhs; unfold structInitLoop
+        simp only [bind, Except.bind, pure, Except.pure, Bool.false_eq_true, ↓reduceIte, hfd, hlvl, Option.map_none]
+        by_cases hs : fieldSkipped ctx f = true
+        · simp only [hs, ↓reduceIte]
+          exact ih frags idx hn hwf' hend
+        · have hs' : fieldSkipped ctx f = false := by simpa using hs
+          simp only [hs', Bool.false_eq_true, ↓reduceIte]
+          cases hl : renderStructLine f ctx hint idx none with
+          | error e => rfl
+          | ok line =>
+            simp only
+            rw [ih (frags ++ line) (idx + 1) hn hwf' hend]
+            cases NodeList.specE ctx nr none hint ns (idx + 1) with
+            | error e => rfl
+            | ok ts => simp [List.append_assoc]
+      | some l =>
+        obtain ⟨cp, crc, d⟩ := l
+        obtain ⟨pfx, ca, hpfx, hpath, hca, hlen⟩ := hlvl
+        conv => lhs; unfold structInitLoop
+        simp only [hpfx, hpath, pathMatches_self, bind, Except.bind, pure, Except.pure, Bool.not_true, Bool.false_eq_true,
+          ↓reduceIte, hfd, Option.map_some, hca]
+        by_cases hs : fieldSkipped ctx f = true
+        · simp only [hs, ↓reduceIte]
+          exact ih frags idx hn hwf' hend
+        · have hs' : fieldSkipped ctx f = false := by simpa using hs
+          simp only [hs', Bool.false_eq_true, ↓reduceIte]
+          cases n with
+          | zero => simp at hn
+          | succ n' =>
+            unfold renderChildFragment
+            have hdeep : (d < ca.childPath.strs.length - 1) = False := by simp [hlen]
+            simp only [hdeep, decide_false, Bool.false_eq_true, ↓reduceIte, List.drop_one, List.tail_cons, bind, Except.bind, pure, Except.pure,
+              childLineHint_not_from ctx ca hint (cls_existing_not_from hk)]
+            cases hl : renderStructLine f ctx hint idx none with
+            | error e => rfl
+            | ok line =>
+              simp only
+              rw [ih (frags ++ line) (idx + 1) hn hwf' hend]
+              cases NodeList.specE ctx nr (some (cp, crc, d)) hint ns (idx + 1) with
+              | error e => rfl
+              | ok ts => simp [List.append_assoc]
+  | .cons (.sub kids cdata) ns, named, lvl, hint, rest, fuel, frags, idx, hf, hwf, hend => by
+    cases fuel with
+    | zero => simp at hf
+    | succ n =>
+      obtain ⟨hhead, hsub, hwf'⟩ := hwf
+      obtain ⟨p0, ca0, key, hfirst, hfd, hca0, hns, hdeep, hkey, hfind, hnot, hkids⟩ := hsub
+      obtain ⟨tl, htl⟩ := NodeList.flatten_of_first kids p0 hfirst
+      have hw : kids.weight + 5 + ns.weight + 1 < n + 1 := by simpa [NodeList.weight, Node.weight] using hf
+      have hn : ns.weight + 1 < n := by omega
+      have ihns := loop_nodes_existing ctx hk cpa hcpa nr hnr ns named lvl hint rest n
+      -- the loop of the nested struct, three calls down
+      obtain ⟨n3, hn3⟩ : ∃ n3, n = n3 + 3 := ⟨n - 3, by omega⟩
+      subst hn3
+      have hk3 : kids.weight + 1 < n3 := by omega
+      have hkids' : NodeList.WF ctx cpa (some (ca0.childPath, some { ty := cdata.ty, typeHint := cdata.typeHint }, newDepthOf lvl))
+          (ns.flatten ++ rest).head? kids := by rw [← afterOf_head]; exact hkids
+      have hend' : endOk (some (ca0.childPath, some { ty := cdata.ty, typeHint := cdata.typeHint }, newDepthOf lvl)) (ns.flatten ++ rest) := by
+        refine ⟨key, hkey, ?_⟩
+        cases hr : ns.flatten ++ rest with
+        | nil => exact Or.inl rfl
+        | cons fc rs =>
+          refine Or.inr ⟨fc, rs, rfl, hnot fc ?_⟩
+          rw [afterOf_head, hr]; rfl
+      have ihkids := loop_nodes_existing ctx hk cpa hcpa nr hnr kids nr
+        (some (ca0.childPath, some { ty := cdata.ty, typeHint := cdata.typeHint }, newDepthOf lvl)) cdata.typeHint (ns.flatten ++ rest) n3 [] 0
+        hk3 hkids' hend'
+      simp only [NodeList.flatten, Node.flatten, List.append_assoc, NodeList.specE]
+      rw [htl] at ihkids ⊢
+      simp only [List.cons_append] at ihkids ⊢
+      -- this level's test and the member that opens the nested struct
+      cases lvl with
+      | none =>
+        conv => lhs; unfold structInitLoop
+        simp only [bind, Except.bind, pure, Except.pure, Bool.false_eq_true, ↓reduceIte, hfd, hns, hca0, Option.map_none]
+        unfold renderChildFragment
+        simp only [↓reduceIte, hk, hcpa, hkey, hfind, hnr, bind, Except.bind, pure, Except.pure, newDepthOf] at hkey ihkids ⊢
+        sub_tail_e 0
+      | some l =>
+        obtain ⟨cp, crc, d⟩ := l
+        obtain ⟨pfx, p, hpfx, hp, hm⟩ := hhead
+        have hp0 : p = p0 := by
+          have : (Node.sub kids cdata).first = some p0 := by simpa [Node.first] using hfirst
+          rw [this] at hp; exact (Option.some.inj hp).symm
+        rw [hp0] at hm
+        have hdeepB : decide (d < ca0.childPath.strs.length - 1) = true := by simpa using hdeep
+        conv => lhs; unfold structInitLoop
+        simp only [hpfx, hm, bind, Except.bind, pure, Except.pure, Bool.not_true, Bool.false_eq_true, ↓reduceIte, hfd, hns, hca0, Option.map_some]
+        unfold renderChildFragment
+        simp only [hdeepB, ↓reduceIte, hk, hcpa, hkey, hfind, hnr, bind, Except.bind, pure, Except.pure, newDepthOf] at hkey ihkids ⊢
+        sub_tail_e (d + 1)
+
 end O2o
